@@ -456,16 +456,29 @@ def optTyOKM : Option VTy → Bool
   | some t => tyOKM t
   | none => false
 
+/-- a **literal operand converted to a concrete type**: what the type checker builds since fixes 40c6233 / c05bffa for the
+literal next to a vector (`b + 1` ↦ `(int3)b + (int3)1`, `c ? v : 1.5` ↦ `c ? (float3)v : (float3)1.5`; before, the *other*
+operand was cast to a vector of the literal type and the exporter panicked).  An integer literal of magnitude below 2^31 is an
+`int` in Metal as well (negative: unary minus applied to an `int`), an unsuffixed floating literal a `float`: the explicit
+conversion to the concrete kind gives the value the IR's conversion of the exact literal gives.  (Wider integer literals are
+`long` in Metal — the known finding *metal-integer-literal-typing* — and stay outside.) -/
+def litOperandOK (ty : VTy) : VExpr → Bool
+  | .sc (.lit (.intLit v)) => decide (-2147483648 < v) && decide (v < 2147483648)
+  | .sc (.lit (.floatLit _)) => ty.scalar == .float
+  | _ => false
+
 mutual
 def okMV (S : Ir.Side) (vvty : Var → VTy) : VExpr → Bool
   | .sc e => Ir.okM S e && !Ir.isMin e && (match Ir.typeOf S.sig S.vty e with | some k => basicK k | none => false)
   | .vvar id => S.vis (.loc id) && tyOKM (vvty (.loc id))
   | .vglobal id => S.vis (.glob id) && tyOKM (vvty (.glob id))
   | .cast ty e =>
-    okMV S vvty e && tyOKM ty &&
-      (match SemVec.VIr.typeOf S.sig S.vty vvty e with
-        | some te => tyOKM te && castFits te ty
-        | none => false)
+    tyOKM ty &&
+      (litOperandOK ty e ||
+        (okMV S vvty e &&
+          (match SemVec.VIr.typeOf S.sig S.vty vvty e with
+            | some te => tyOKM te && castFits te ty
+            | none => false)))
   | .swz e sl => okMV S vvty e && optTyOKM (SemVec.VIr.typeOf S.sig S.vty vvty e) && decide (sl.length ≤ 4)
   | .ctor ty slots => tyOKM ty && okMVSlots S vvty slots
   | .tern c t f => okMV S vvty c && okMV S vvty t && okMV S vvty f
